@@ -236,6 +236,13 @@ impl<'a, 'tcx> Ser<'a, 'tcx> {
                 let _ = write!(s, ",\"named\":{}", esc(&defpath(self.tcx, u.def)));
             }
         }
+        // pointer to a static: name the static
+        if let Const::Val(ConstValue::Scalar(rustc_middle::mir::interpret::Scalar::Ptr(ptr, _)), _) = c.const_ {
+            let aid = ptr.provenance.alloc_id();
+            if let Some(rustc_middle::mir::interpret::GlobalAlloc::Static(did)) = self.tcx.try_get_global_alloc(aid) {
+                let _ = write!(s, ",\"static\":{}", esc(&defpath(self.tcx, did)));
+            }
+        }
         let disp = ty::print::with_no_trimmed_paths!(format!("{}", c.const_));
         let _ = write!(s, ",\"s\":{}}}", esc(&disp));
         s
@@ -666,7 +673,7 @@ fn serialise_body<'tcx>(tcx: TyCtxt<'tcx>, def: LocalDefId, body: &Body<'tcx>, p
     let did = def.to_def_id();
     let kind = tcx.def_kind(did);
     // only executable code items: fns, methods, closures (incl. coroutines). Skip consts/statics/anon consts.
-    if !matches!(kind, DefKind::Fn | DefKind::AssocFn | DefKind::Closure | DefKind::SyntheticCoroutineBody) {
+    if !matches!(kind, DefKind::Fn | DefKind::AssocFn | DefKind::Closure | DefKind::SyntheticCoroutineBody | DefKind::Static { .. }) {
         return None;
     }
     let env = ty::TypingEnv::post_analysis(tcx, did);
@@ -715,7 +722,7 @@ impl rustc_driver::Callbacks for Cb {
         // make sure every body has been built (analysis normally did it already)
         for def in tcx.hir_body_owners() {
             let kind = tcx.def_kind(def);
-            if matches!(kind, DefKind::Fn | DefKind::AssocFn | DefKind::Closure) {
+            if matches!(kind, DefKind::Fn | DefKind::AssocFn | DefKind::Closure | DefKind::Static { .. }) {
                 let _ = tcx.mir_built(def);
             }
         }
